@@ -499,3 +499,192 @@ class ReduceNodeStop(MapKernel):
 
 
 KERNELS.append(ReduceNodeStop)
+
+
+# ------------------------------------------------------------------ write_map_error (C15 keyed attribution)
+
+
+class ErrFields(Obj):
+    cls = "NodeErrorFields"
+
+
+class ErrValue(Obj):
+    cls = "Value(NodeError)"
+
+    def m_view(self, I, args, n):
+        return self
+
+
+class ErrOutput(Obj):
+    cls = "TSOutputView(error)"
+
+    def __init__(self, k):
+        Obj.__init__(self, name="error_output")
+        self.k = k
+
+    def m_as_dict(self, I, args, n):
+        return self
+
+    def m_begin_mutation(self, I, args, n):
+        I.ctx.write(Loc((self.k.g.oid, "dict_mut_t")), I.ctx.rv(args[0]))
+        return ErrDictMutation(self.k)
+
+
+class ErrDictMutation(Obj):
+    cls = "TSDMutation(errors)"
+
+    def __init__(self, k):
+        Obj.__init__(self, name="errors")
+        self.k = k
+
+    def op(self, I, op, rest, n, a0):
+        if op == "[]":
+            key = I.ctx.rv(rest[0])
+            kid = getattr(key, "kid", None)
+            if kid is None:
+                raise Gap("error dictionary indexed with an untracked key")
+            return ErrChild(self.k, kid)
+        return NotImplemented
+
+
+class ErrChild(Obj):
+    cls = "TSOutputView(errors[key])"
+
+    def __init__(self, k, kid):
+        Obj.__init__(self, name="error_element")
+        self.k, self.kid = k, kid
+
+    def m_begin_mutation(self, I, args, n):
+        return ErrChildMutation(self.k, self.kid, I.ctx.rv(args[0]))
+
+    # observers of the element's current state: arbitrary
+    def m_has_current_value(self, I, args, n):
+        return I.ctx.fresh("has_current_value", "bool")
+
+    def m_valid(self, I, args, n):
+        return I.ctx.fresh("element_valid", "bool")
+
+    def m_value(self, I, args, n):
+        return ErrCurrent()
+
+
+class ErrCurrent(Obj):
+    cls = "ValueView(current error)"
+
+    def m_equals(self, I, args, n):
+        return I.ctx.fresh("same_error_value", "bool")
+
+
+class ErrChildMutation(Obj):
+    cls = "TSMutation(errors[key])"
+
+    def __init__(self, k, kid, t):
+        Obj.__init__(self, name="error_mutation")
+        self.k, self.kid, self.t = k, kid, t
+
+    def m_move_value_from(self, I, args, n):
+        ctx = I.ctx
+        g = self.k.g
+        v = ctx.rv(args[0])
+        ctx.write(Loc((g.oid, "w_count")), ctx.store[(g.oid, "w_count")] + 1)
+        ctx.write(Loc((g.oid, "w_key")), self.kid)
+        ctx.write(Loc((g.oid, "w_t")), self.t)
+        ctx.write(Loc((g.oid, "w_msg")), getattr(v, "msg", z3.IntVal(-5)))
+        ctx.write(Loc((g.oid, "w_node")), getattr(v, "node", z3.IntVal(-5)))
+        return ctx.fresh("moved", "bool")
+
+
+class KeyView(Obj):
+    cls = "ValueView(key)"
+
+    def __init__(self, kid):
+        Obj.__init__(self, name="key")
+        self.kid = kid
+
+
+class NodeRef(Obj):
+    cls = "NodeView"
+
+    def __init__(self, nid, valid):
+        Obj.__init__(self, name="node")
+        self.nid, self.valid = nid, valid
+
+    def m_valid(self, I, args, n):
+        return self.valid
+
+
+class WriteMapError(Kernel):
+    tu = TU
+    name = "map_node.cpp:write_map_error"
+    fn_name = "write_map_error"
+    filter = "write_map_error"
+    property_ids = ("C15", "C10")
+    title = "write_map_error: exactly one error tick, in this cycle, under the failing child's key, carrying the message"
+    scope = {"lo": 0, "hi": 3}
+
+    def setup(self, I):
+        ctx = I.ctx
+        self.T = z3.Int("evaluation_time")
+        self.key = z3.Int("key_id")
+        self.msg = z3.Int("error_msg")
+        self.failed_id, self.view_id = z3.Int("failed_node_id"), z3.Int("map_node_id")
+        self.failed_valid = z3.Bool("failed_node_valid")
+        g = Obj("ghost", "wg")
+        self.g = g
+        ctx.store[(g.oid, "w_count")] = z3.IntVal(0)
+        for nm in ("w_key", "w_t", "w_msg", "w_node", "dict_mut_t", "out_t"):
+            ctx.store[(g.oid, nm)] = z3.IntVal(-9)
+        k = self
+        view = NodeRef(self.view_id, z3.BoolVal(True))
+        view.m_schema = lambda I_, a, n_: Ptr(Wild(name="schema"), I_.ctx.fresh("schema_null", "bool"))
+
+        def error_output(I_, a, n_):
+            I_.ctx.write(Loc((g.oid, "out_t")), I_.ctx.rv(a[0]))
+            return ErrOutput(k)
+        view.m_error_output = error_output
+        self.view = view
+        return None, {"view": view, "failed_node": NodeRef(self.failed_id, self.failed_valid), "key": KeyView(self.key),
+                      "evaluation_time": self.T, "error_msg": self.msg}
+
+    def function_handler(self, name, node, callee_node):
+        h = getattr(self, "f_" + name, None)
+        if h is not None:
+            return h
+        return Kernel.function_handler(self, name, node, callee_node)
+
+    def ctor_handler(self, cls, node):
+        if cls.endswith("ErrorCaptureOptions"):
+            return lambda I, args, n: Wild(name="options")
+        return Kernel.ctor_handler(self, cls, node)
+
+    def f_capture_node_error(self, I, args, n):
+        """node_error.cpp capture_node_error (trusted): fields name the given node, time and message"""
+        ctx = I.ctx
+        f = ErrFields(name="fields")
+        nv = ctx.rv(args[0])
+        f.node = nv.nid if isinstance(nv, NodeRef) else z3.IntVal(-6)
+        f.t = ctx.rv(args[1])
+        f.msg = ctx.rv(args[2])
+        return f
+
+    def f_make_node_error_value(self, I, args, n):
+        f = I.ctx.rv(args[0])
+        v = ErrValue(name="error_value")
+        v.msg, v.node, v.t = f.msg, f.node, f.t
+        return v
+
+    def f_move(self, I, args, n):
+        return I.ctx.rv(args[0])
+
+    def post(self, I, ret):
+        ctx = I.ctx
+        g = lambda nm: ctx.store[(self.g.oid, nm)]
+        ctx.oblige("ensures.exactly-one-error-tick-in-this-cycle-under-the-given-key-with-the-message[C15 exactly one error tick "
+                   "in that same cycle carrying the exception's message; C10 reported under that key only]",
+                   z3.And(g("w_count") == 1, g("w_key") == self.key, g("w_t") == self.T, g("w_msg") == self.msg,
+                          g("dict_mut_t") == self.T, g("out_t") == self.T), kind="post-normal")
+        ctx.oblige("ensures.the-error-names-the-failing-node-when-known[C14/C15 naming the failing node]",
+                   g("w_node") == z3.If(self.failed_valid, self.failed_id, self.view_id), kind="post-normal")
+
+
+KERNELS.append(WriteMapError)
